@@ -294,6 +294,9 @@ def an_C10(mod, name, paths, fq):
                         viol = {'request': {'kind': 'decoder_result', 'run': req, 'words': list(words_ok)},
                                 'what': '%s: result part has the wrong form when the END error word is %s' % (
                                     name, 'non-zero' if case == 'error' else 'zero'), 'solver_output': detail}
+                        if any(tk[0] == 'opaque' for tk in cs.tail):
+                            # part of the text is a call the token model does not open: the form cannot be read off it
+                            viol['must_reproduce'] = True
                 note('C10/%s/%s.form' % (name, case), ok, detail, viol)
     ms = (time.time() - t0) * 1000
     out = []
